@@ -61,6 +61,7 @@ pub proof fn lemma_send_then_recv(k0: K, k1: K, tx: c_int, data: Seq<u8>, chans:
         all_in(chans, k1.sock), none_in(regions, k1.sock),   // fstat at the receiver: channels are sockets, regions are not
     ensures
         head_ok(k1, k0.peer[tx]), //@@clause:roundtrip/ensures.send_post_implies_recv_pre
+        heads_ok(k1, k1.q, k0.peer[tx], k1.q[k0.peer[tx]].len()), //@@clause:roundtrip/ensures.send_post_implies_recv_pre
         head_complete(k1, k0.peer[tx]), //@@clause:roundtrip/ensures.emission_complete
         head_payload(k1, k0.peer[tx]) == data, //@@clause:roundtrip/ensures.payload_is_what_was_sent
         ({ let p = k1.q[k0.peer[tx]].first();
@@ -95,6 +96,8 @@ pub proof fn lemma_send_then_recv(k0: K, k1: K, tx: c_int, data: Seq<u8>, chans:
         assert((p.data + flat(k1.q[ded])).len() == data.len());
         //@@CANARY
     }
+    assert(with_q(k1, k1.q) == k1);
+    assert(heads_ok(k1, after_head(k1.q, mrx), mrx, 0));
     //@@CANARY
 }
 
